@@ -24,7 +24,11 @@ def variants(rnd, members, tier):
             continue
         n = len(x.plain)
         huge = n + 5000 if x.m['method'] == b'-pm1-' else 2 ** 32 - 1     # pm1 is implicitly endless: 4 GiB would really be decoded
-        for newlen in sorted(set([n + 1, max(0, n - 1), 0, huge])):
+        lens = [n + 1, max(0, n - 1), 0, huge]
+        if x.m.get('os') == ord('m') or i == 0:
+            # lengths a tolerant comparison might let through: the next and previous multiple of 128 (MacBinary blocks), one block more
+            lens += [(n + 127) // 128 * 128, n // 128 * 128, n + 128, n + 127]
+        for newlen in sorted(set(lens)):
             if newlen == n:
                 continue
             y = arc.Member(dict(x.m, size=newlen), x.packed, x.plain)
@@ -73,6 +77,19 @@ def gen_bases(rnd, tier):
             if crc16(cand) == 0xffff:
                 out.append([arc.Member(H.simple_member(b'crcf.bin', cand, level=lvl), cand, cand)])
                 break
+    # members written by the Mac tool (OS type 'm') whose data is certainly not a MacBinary envelope (first byte 0x55): passed through,
+    # and judged like any other member
+    for lvl in (1, 2):
+        for size in (1, 100, 127, 128, 255, 300):
+            data = b'\x55' + bytes(rnd.randrange(256) for _ in range(size - 1))
+            for meth in ((b'-lh0-',) if tier == 'quick' and size not in (255, 300) else (b'-lh0-', b'-lh5-')):
+                if meth == b'-lh0-':
+                    out.append([arc.Member(H.simple_member(b'macplain%d.bin' % size, data, level=lvl, os_type=ord('m')), data, data)])
+                else:
+                    from ..lhamodel import lhnew
+                    cmds = [('L', c) for c in data]
+                    packed, _ = lhnew.serialise('-lh5-', cmds, rnd)
+                    out.append([arc.Member(H.simple_member(b'macplain%d.lh5' % size, data, level=lvl, method=meth, os_type=ord('m'), packed=packed), packed, data)])
     for k in range(24 if tier == 'quick' else 300):
         ms = []
         n = rnd.randrange(2, 5)
@@ -148,8 +165,8 @@ def shard(seed, bases, tier):
             meth = h['method'].decode('latin1')
             sh.count('members_judged')
             sh.hist('verdicts', 'good' if good else 'bad')
-            if h['os'] == ord('m'):
-                continue
+            if h['os'] == ord('m') and not (h['filename'] or b'').startswith(b'macplain'):
+                continue            # may be a MacBinary envelope: what "the bytes produced" are is C06's subject (macplain*: first byte 0x55, never one)
             if bool(ck['result']) != good:
                 sh.violation('C07-check-verdict:%s:%s:%s' % (meth, tag, 'false-good' if ck['result'] else 'false-bad'),
                              'member %d (%s, recorded length %d crc %04x): read delivered %d bytes with CRC %04x, but lha_reader_check returned %d'
